@@ -181,7 +181,18 @@ func runLBAcct(x *X) {
 	nSteps := 3 + c.Intn(8, "nsteps")
 	clients := []string{"192.0.2.1", "192.0.2.2", "198.51.100.7"}
 	for i := 0; i < nSteps && !x.dead; i++ {
-		switch c.Pick([]int{6, 4, 2, 2}, "step") {
+		switch c.Pick([]int{6, 4, 2, 2, 1}, "step") {
+		case 4: // the operator removes a backend and adds it again under the same name: what it has
+			// served so far does not disappear from the books
+			b := net.order[c.Intn(len(net.order), "readd")]
+			w := 1 + c.Intn(3, "w")
+			x.Do("readd", func() {
+				h.lb.RemoveBackend(b.name)
+				if err := h.lb.AddBackend(config.BackendConfig{Name: b.name, Address: "http://" + b.host, Weight: w}); err != nil {
+					panic(err)
+				}
+			}, onErr)
+			steps = append(steps, "remove+add("+b.name+")")
 		case 0: // one request of a drawn class
 			class := classes[c.Intn(len(classes), "class")]
 			cl := clients[c.Intn(len(clients), "client")]
